@@ -8,10 +8,12 @@ Local Open Scope Z_scope.
 Record wf_cc (a : arch) (cc : callconv) : Prop := mk_wf_cc {
   wc_nat : pow2 (cc_natural cc);
   wc_nat_rs : (reg_size a | cc_natural cc);
+  wc_nat_le : cc_natural cc <= 16;
   wc_rs : qget (cc_srsize cc) 0 = reg_size a;
   wc_sizes : forall g, 0 <= qget (cc_srsize cc) g;
   wc_aligns : forall g, 0 <= g <= 3 -> 0 < qget (cc_sralign cc) g;
   wc_vs : pow2 (qget (cc_srsize cc) 1);
+  wc_bounds : forall g, qget (cc_srsize cc) g <= 16 /\ qget (cc_sralign cc) g <= 16;
   wc_x86 : is_x86_family a = true ->
            cc_srsize cc = x86_sr_size (reg_size a) /\ cc_sralign cc = x86_sr_size (reg_size a) /\
            0 <= q0 (cc_preserved cc) < 2 ^ 16 /\
@@ -44,10 +46,12 @@ Proof.
   (constructor; cbn;
    [ first [ exists 2; split; [lia | reflexivity] | exists 4; split; [lia | reflexivity] ]
    | first [exists 1; reflexivity | exists 2; reflexivity | exists 4; reflexivity]
+   | lia
    | reflexivity
    | intros g; unfold qget; cbn; repeat (destruct (_ =? _)); lia
    | intros g Hg; destruct (G g Hg) as [->|[->|[->| ->]]]; cbn; lia
    | first [ exists 3; split; [lia | reflexivity] | exists 4; split; [lia | reflexivity] ]
+   | intros g; unfold qget; cbn; repeat (destruct (_ =? _)); lia
    | first [ discriminate | intros _; repeat split; try reflexivity; try (vm_compute; congruence) ]
    | first [ discriminate | intros _; repeat split; try reflexivity; try (vm_compute; congruence) ] ]).
 Qed.
@@ -69,6 +73,27 @@ Proof.
   intros H. inversion H; subst. rewrite <- (classify_arch _ _ _ _ E). apply cc_of_kind_wf.
 Qed.
 
+(* the Compiler's override of the natural alignment keeps conventions well formed *)
+Lemma compiler_cc_wf a plat cc : wf_cc a cc -> wf_cc a (compiler_cc a plat cc).
+Proof.
+  intros W. unfold compiler_cc, cc_with_natural.
+  destruct (Z.ltb_spec (cc_natural cc) (env_stack_alignment a plat)) as [L|L]; auto.
+  destruct W as [W1 W2 Wn W3 W4 W5 W6 Wb W7 W8].
+  assert (E : env_stack_alignment a plat = 4 \/ env_stack_alignment a plat = 16) by (unfold env_stack_alignment; destruct a; try destruct (plat =? 1); auto).
+  constructor; cbn; auto.
+  - destruct E as [-> | ->]; [exists 2 | exists 4]; split; try lia; reflexivity.
+  - destruct E as [E|E]; rewrite E.
+    + destruct a; cbn in *; try (exists 1; reflexivity).
+      * unfold env_stack_alignment in E. discriminate.
+      * unfold env_stack_alignment in E. discriminate.
+    + destruct a; cbn; [exists 4 | exists 2 | exists 2]; reflexivity.
+  - destruct E as [E|E]; rewrite E; lia.
+  - intros Ha. specialize (W8 Ha). subst a. unfold env_stack_alignment in L. destruct W8 as [Hn _]. lia.
+Qed.
+
+Lemma compiler_cc_init_wf a plat ccid cc : cc_init a plat ccid = Some cc -> wf_cc a (compiler_cc a plat cc).
+Proof. intros H. apply compiler_cc_wf. eapply cc_init_wf; eauto. Qed.
+
 (* ------------------------------------------------------------------ basic facts *)
 Section Layout.
 Variable f : frame_in.
@@ -82,7 +107,7 @@ Let ras := ret_addr_size a.
 
 Lemma sal_pow2 : pow2 sal.
 Proof.
-  unfold sal, final_alignment. destruct WF as [[Hn _ _ _ _ _ _ _] _ _ Hl Hc _ _].
+  unfold sal, final_alignment. pose proof (wc_nat _ _ (wi_cc f WF)) as Hn. pose proof (wi_lalign f WF) as Hl. pose proof (wi_calign f WF) as Hc.
   assert (M : forall x y, pow2 x -> align_ok y -> pow2 (Z.max x y)).
   { intros x y Hx [->|Hy]; [|apply pow2_max; auto]. pose proof (pow2_pos x Hx). rewrite Z.max_l by lia. auto. }
   rewrite Z.max_assoc. apply M; auto.
